@@ -84,7 +84,7 @@ CHECKS.update({
         text=("For every history visited by the C07 search to depth 3 (quick) / 4 (thorough) and every configuration, the ordered physical commit "
               "log of the store is cut at EVERY boundary (including the empty store and the store after the very first write); an engine opened on "
               "each prefix must start, show the inputs of exactly one committed session (all of them), answer every query with the from-scratch "
-              "value for those inputs, and handle a further edit + query correctly."),
+              "value for those inputs - asked bottom-up and, on a second engine on the same prefix, top-down - and handle a further edit + query correctly."),
         design_ref="DESIGN.md 4/C08",
         note="Crash = prefix of physical commits (atomicity of one commit is the backend's, C11); kill -9 at arbitrary instants of a real backend is a sampling experiment outside this family and not claimed.",
     ),
@@ -118,11 +118,13 @@ CHECKS.update({
         category="fault_enumeration",
         technique="exhaustive fault-point enumeration on the real engine: the victim future is dropped at every suspension point; every executor activation is made to panic at every read position; plus deviation-bounded schedule exploration of victim + concurrent reader",
         text=("For every scenario (8 programs x in-memory / DbBacked<MemKv> x victim in {query after an edit, whole input session, session with "
-              "refresh}) the uncancelled run is measured and the victim is then dropped at its n-th Pending for EVERY n; every executor "
+              "refresh}) the uncancelled run is measured and the victim is then dropped at its n-th Pending for EVERY n, and at the k-th storage "
+              "operation of ANY task for EVERY k (its helper tasks are aborted mid-way); every executor "
               "activation of the run is made to panic before its first read and after each read. After each fault: the drop does not panic, an "
               "executor panic reaches the caller, nothing else panics (process-wide hook + panics swallowed by detached tasks), the same query "
               "again and an edit + query of every node return from-scratch values, the engine shuts down and a new engine on the same store "
               "answers from scratch. S: victim cancelled at every point while a second task queries the same root, all schedules with <= 1 (2) "
+              "deviations; cancelled sessions: the guarded rest of the interrupted operation and the commit-on-drop task in every order, <= 2 (3) "
               "deviations. Helpers: executors that hand their reads to spawned helper tasks and return without joining them (the helper closes a "
               "cycle / finishes after the executor returned), all schedules with <= 2 (3) deviations: what is published must account for the helpers."),
         design_ref="DESIGN.md 4/C05",
@@ -136,7 +138,8 @@ CHECKS.update({
         text=("Every directed graph on 1-2 nodes (every edge absent / fixed / switched by one of two input bits, every node normal or firewall) and "
               "on 3 nodes with <= 3 (thorough: 4) edges x every history to depth 3 (4) over {set a switching bit, query all nodes in every order, "
               "query one node}; oracle = nodes on a cycle of the input-determined graph evaluate to their cycle default, all others as from scratch "
-              "with the defaults substituted; every request completes. S: 2-3 tasks enter one strongly connected component (2-cycle, 3-cycle through "
+              "with the defaults substituted; every request completes; graphs with a switched edge are searched from all switches off and from all "
+              "switches on. S: 2-3 tasks enter one strongly connected component (2-cycle, 3-cycle through "
               "a firewall, two cycles sharing a node + outside consumer; two cycles through a shared tail whose head reads both branches concurrently "
               "(join_all) or in spawned helper tasks; executors whose helpers outlive them) from different members, all schedules with <= 2 (3) "
               "deviations. A member's excuse 'its read came after the unwinding' (F8) is decided per execution from the callee registrations the "
